@@ -29,6 +29,8 @@ Record config := Config {
   esleep : Z;        (* sleep between empty reads *)
   resets : bool;     (* emptyCount reset by a successful decode? *)
   checks : bool;     (* heartbeat compares Created? *)
+  guard : bool;      (* an empty file counts as stale only if it was not modified within factor * interval? *)
+  undec : bool;      (* undecodable contents are treated like an empty file (else Lock returns an error)? *)
   delta : Z;         (* H-live: heartbeat latency bound *)
   eps : Z            (* H-live: longest truncate -> write gap of a heartbeat (0 on a healthy disk) *)
 }.
@@ -71,7 +73,8 @@ Record state := State {
   cproc : tid -> pid;
   tids : list tid;           (* threads started so far *)
   hb : ino -> hbstate;
-  lastcreate : Z             (* clock reading written by the latest createLockfile *)
+  lastcreate : Z;            (* clock reading written by the latest createLockfile *)
+  mtime : ino -> Z           (* modification time of each inode: set by create, write, truncate *)
 }.
 
 Inductive label :=
@@ -110,17 +113,25 @@ Definition is_stale (t : Z) (created updated : option Z) : bool :=
   end.
 
 (** H-live: time may not pass beyond [delta] after the wake-up time of a live heartbeat *)
-Definition hb_allows (t : Z) (h : hbstate) : bool :=
+Definition hb_allows (s : state) (t : Z) (h : hbstate) : bool :=
   match h with
   | HSleep _ _ due => t <=? due + delta c
-  | HTrunc _ _ _ _ since => t <=? since + eps c
+  | HTrunc _ _ j _ _ => t <=? mtime s j + eps c      (* mtime s j = the instant of the truncate *)
+  | _ => true
+  end.
+(** ... nor beyond [delta] after the O_EXCL create of a live thread that has not yet written
+    the metadata (a live process is not stalled for longer than [delta]) *)
+Definition cs_allows (s : state) (t : Z) (x : cstate) : bool :=
+  match x with
+  | CCreated _ i => t <=? mtime s i + delta c
   | _ => true
   end.
 Definition can_tick (s : state) (d : Z) : bool :=
-  (0 <=? d) && forallb (fun i => hb_allows (now s + d) (hb s i)) (seq 0 (nexti s)).
+  (0 <=? d) && forallb (fun i => hb_allows s (now s + d) (hb s i)) (seq 0 (nexti s)) &&
+  forallb (fun t => cs_allows s (now s + d) (cs s t)) (tids s).
 
 Definition set_cs (s : state) (t : tid) (x : cstate) : state :=
-  State (now s) (file s) (content s) (nexti s) (upd (cs s) t x) (cproc s) (tids s) (hb s) (lastcreate s).
+  State (now s) (file s) (content s) (nexti s) (upd (cs s) t x) (cproc s) (tids s) (hb s) (lastcreate s) (mtime s).
 
 Definition kill_cs (p : pid) (pr : tid -> pid) (f : tid -> cstate) : tid -> cstate :=
   fun t => match f t with
@@ -139,12 +150,12 @@ Definition step (s : state) (l : label) : option state :=
   match l with
   | LTick d =>
       if can_tick s d then
-        Some (State (now s + d) (file s) (content s) (nexti s) (cs s) (cproc s) (tids s) (hb s) (lastcreate s))
+        Some (State (now s + d) (file s) (content s) (nexti s) (cs s) (cproc s) (tids s) (hb s) (lastcreate s) (mtime s))
       else None
   | LStart t p =>
       match cs s t with
       | CIdle => Some (State (now s) (file s) (content s) (nexti s) (upd (cs s) t (CTry 0)) (upd (cproc s) t p)
-                             (t :: tids s) (hb s) (lastcreate s))
+                             (t :: tids s) (hb s) (lastcreate s) (mtime s))
       | _ => None
       end
   | LTryCreate t =>
@@ -154,7 +165,7 @@ Definition step (s : state) (l : label) : option state :=
           | None =>
               let i := nexti s in
               Some (State (now s) (Some i) (upd (content s) i FEmpty) (S i) (upd (cs s) t (CCreated ec i))
-                          (cproc s) (tids s) (upd (hb s) i HNone) (lastcreate s))
+                          (cproc s) (tids s) (upd (hb s) i HNone) (lastcreate s) (upd (mtime s) i (now s)))
           | Some _ => Some (set_cs s t (CExists ec))
           end
       | _ => None
@@ -166,7 +177,7 @@ Definition step (s : state) (l : label) : option state :=
           if lastcreate s <? now s then
             Some (State (now s) (file s) (upd (content s) i (FMeta (Some (now s)) (Some (now s)))) (nexti s)
                         (upd (cs s) t (CHolding i)) (cproc s) (tids s)
-                        (upd (hb s) i (HSleep (cproc s t) (now s) (now s + interval c))) (now s))
+                        (upd (hb s) i (HSleep (cproc s t) (now s) (now s + interval c))) (now s) (upd (mtime s) i (now s)))
           else None
       | _ => None
       end
@@ -178,9 +189,15 @@ Definition step (s : state) (l : label) : option state :=
           | Some i =>
               match content s i with
               | FEmpty =>
-                  if (S ec <? retries c)%nat then Some (set_cs s t (CSleep (S ec) (now s + esleep c)))
+                  if (S ec <? retries c)%nat || (guard c && negb (factor c * interval c <? now s - mtime s i))
+                  then Some (set_cs s t (CSleep (S ec) (now s + esleep c)))
                   else Some (set_cs s t (CStale (S ec)))            (* zero meta: stale *)
-              | FGarbage => Some (set_cs s t (CFailed ErrDecode))
+              | FGarbage =>
+                  if undec c then
+                    if (S ec <? retries c)%nat || (guard c && negb (factor c * interval c <? now s - mtime s i))
+                    then Some (set_cs s t (CSleep (S ec) (now s + esleep c)))
+                    else Some (set_cs s t (CStale (S ec)))
+                  else Some (set_cs s t (CFailed ErrDecode))
               | FMeta cr u =>
                   let ec' := if resets c then O else ec in
                   if is_stale (now s) cr u then Some (set_cs s t (CStale ec'))
@@ -192,7 +209,7 @@ Definition step (s : state) (l : label) : option state :=
   | LRemove t =>
       match cs s t with
       | CStale ec =>
-          Some (State (now s) None (content s) (nexti s) (upd (cs s) t (CTry ec)) (cproc s) (tids s) (hb s) (lastcreate s))
+          Some (State (now s) None (content s) (nexti s) (upd (cs s) t (CTry ec)) (cproc s) (tids s) (hb s) (lastcreate s) (mtime s))
       | _ => None
       end
   | LWake t =>
@@ -208,7 +225,7 @@ Definition step (s : state) (l : label) : option state :=
   | LUnlock t =>
       match cs s t with
       | CHolding _ =>
-          Some (State (now s) None (content s) (nexti s) (upd (cs s) t CReleased) (cproc s) (tids s) (hb s) (lastcreate s))
+          Some (State (now s) None (content s) (nexti s) (upd (cs s) t CReleased) (cproc s) (tids s) (hb s) (lastcreate s) (mtime s))
       | _ => None
       end
   | LHbWake i =>
@@ -216,17 +233,17 @@ Definition step (s : state) (l : label) : option state :=
       | HSleep p cr due =>
           if due <=? now s then
             match file s with
-            | None => Some (State (now s) (file s) (content s) (nexti s) (cs s) (cproc s) (tids s) (upd (hb s) i HDone) (lastcreate s))
+            | None => Some (State (now s) (file s) (content s) (nexti s) (cs s) (cproc s) (tids s) (upd (hb s) i HDone) (lastcreate s) (mtime s))
             | Some j =>
                 match content s j with
                 | FMeta fcr _ =>
                     if checks c && negb (opt_eqb fcr (Some cr)) then
-                      Some (State (now s) (file s) (content s) (nexti s) (cs s) (cproc s) (tids s) (upd (hb s) i HDone) (lastcreate s))
+                      Some (State (now s) (file s) (content s) (nexti s) (cs s) (cproc s) (tids s) (upd (hb s) i HDone) (lastcreate s) (mtime s))
                     else
                       Some (State (now s) (file s) (upd (content s) j FEmpty) (nexti s) (cs s) (cproc s) (tids s)
-                                  (upd (hb s) i (HTrunc p cr j fcr (now s))) (lastcreate s))
+                                  (upd (hb s) i (HTrunc p cr j fcr (now s))) (lastcreate s) (upd (mtime s) j (now s)))
                 | _ => (* json.Unmarshal fails: terminate *)
-                    Some (State (now s) (file s) (content s) (nexti s) (cs s) (cproc s) (tids s) (upd (hb s) i HDone) (lastcreate s))
+                    Some (State (now s) (file s) (content s) (nexti s) (cs s) (cproc s) (tids s) (upd (hb s) i HDone) (lastcreate s) (mtime s))
                 end
             end
           else None
@@ -236,12 +253,12 @@ Definition step (s : state) (l : label) : option state :=
       match hb s i with
       | HTrunc p cr j fcr _ =>
           Some (State (now s) (file s) (upd (content s) j (FMeta fcr (Some (now s)))) (nexti s) (cs s) (cproc s) (tids s)
-                      (upd (hb s) i (HSleep p cr (now s + interval c))) (lastcreate s))
+                      (upd (hb s) i (HSleep p cr (now s + interval c))) (lastcreate s) (upd (mtime s) j (now s)))
       | _ => None
       end
   | LKill p =>
       Some (State (now s) (file s) (content s) (nexti s) (kill_cs p (cproc s) (cs s)) (cproc s) (tids s)
-                  (kill_hb p (hb s)) (lastcreate s))
+                  (kill_hb p (hb s)) (lastcreate s) (mtime s))
   end.
 
 Fixpoint run (s : state) (ls : list label) : option state :=
@@ -293,7 +310,7 @@ Definition hb_runs (stopped : list pid) (h : hbstate) : bool :=
   match hb_proc h with Some p => negb (mem_nat p stopped) | None => true end.
 Definition th_runs (stopped : list pid) (s : state) (t : tid) : bool := negb (mem_nat (cproc s t) stopped).
 
-Definition next_due (stopped : list pid) (s : state) : option (Z * label) :=
+Definition next_due (stopped : list pid) (lat : tid -> Z) (s : state) : option (Z * label) :=
   let hbs := map (fun i => if hb_runs stopped (hb s i) then
                            match hb s i with
                            | HSleep _ _ due => Some (due, LHbWake i)
@@ -301,7 +318,7 @@ Definition next_due (stopped : list pid) (s : state) : option (Z * label) :=
                            | _ => None
                            end else None) (seq 0 (nexti s)) in
   let ths := map (fun t => if th_runs stopped s t then
-                           match cs s t with CSleep _ u => Some (u, LWake t) | _ => None end
+                           match cs s t with CSleep _ u => Some (u + lat t, LWake t) | _ => None end
                            else None) (rev (tids s)) in
   fold_left min_due (hbs ++ ths) None.
 
@@ -334,13 +351,41 @@ Record sim := Sim {
   cancelled : list tid;
   outlog : list (tid * Z * Z);
   trace : list label;         (* the labels taken, newest first *)
-  stopped : list pid          (* processes between SIGSTOP and SIGCONT *)
+  stopped : list pid;         (* processes between SIGSTOP and SIGCONT *)
+  slow_rm : list (pid * Z);   (* processes whose unlink(2) calls are delayed (injected), and by how much *)
+  stale_at : list (tid * Z);  (* when each thread that is about to remove a stale file judged it stale *)
+  lat0 : Z;                   (* scheduling latency: every sleep of a Lock call lasts this much longer ... *)
+  lats : list (tid * Z)       (* ... plus this much for the listed threads *)
 }.
+
+Definition assoc {A} (k : nat) (l : list (nat * A)) : option A :=
+  match find (fun x => Nat.eqb (fst x) k) l with Some x => Some (snd x) | None => None end.
+
+(** threads that entered [CStale] by this step *)
+Definition new_stale (s s' : state) : list (tid * Z) :=
+  flat_map (fun t => match cs s t, cs s' t with
+                     | CStale _, _ => []
+                     | _, CStale _ => [(t, now s')]
+                     | _, _ => []
+                     end) (rev (tids s')).
 
 Definition take (m : sim) (l : label) : option sim :=
   match step (sst m) l with
-  | Some s' => Some (Sim s' (script m) (cancelled m) (outlog m ++ new_outcomes (sst m) s') (l :: trace m) (stopped m))
+  | Some s' => Some (Sim s' (script m) (cancelled m) (outlog m ++ new_outcomes (sst m) s') (l :: trace m) (stopped m)
+                         (slow_rm m) (new_stale (sst m) s' ++ stale_at m) (lat0 m) (lats m))
   | None => None
+  end.
+
+(** the instant at which the delayed os.Remove of a thread in [CStale] takes place *)
+Definition rm_due (m : sim) (t : tid) : option Z :=
+  let s := sst m in
+  match cs s t with
+  | CStale _ =>
+      match assoc (cproc s t) (slow_rm m) with
+      | Some d => Some (match assoc t (stale_at m) with Some t0 => t0 | None => now s end + d)
+      | None => None
+      end
+  | _ => None
   end.
 
 Definition sim_step (m : sim) : option sim :=
@@ -361,7 +406,12 @@ Definition sim_step (m : sim) : option sim :=
                              end) (seq 0 (nexti s)) with
   | Some l => take m l
   | None =>
-  match first_some (fun t => if th_runs st s t then transient_label s t else None) (rev (tids s)) with
+  match first_some (fun t => if th_runs st s t then
+                               match rm_due m t with
+                               | Some due => if due <=? now s then transient_label s t else None
+                               | None => transient_label s t
+                               end
+                             else None) (rev (tids s)) with
   | Some l =>
       (* WriteMeta needs a clock reading later than the previous creation's: 1 ns passes *)
       match l with
@@ -370,7 +420,11 @@ Definition sim_step (m : sim) : option sim :=
       end
   | None =>
   (* 3. next instant *)
-  let due := next_due st s in
+  let due := fold_left min_due
+                       (map (fun t => if th_runs st s t then
+                                        match rm_due m t with Some d => Some (d, LRemove t) | None => None end
+                                      else None) (rev (tids s)))
+                       (next_due st (fun t => lat0 m + match assoc t (lats m) with Some x => x | None => 0 end) s) in
   match script m, due with
   | (te, e) :: rest, _ =>
       let script_first := match due with Some (td, _) => te <=? td | None => true end in
@@ -382,7 +436,7 @@ Definition sim_step (m : sim) : option sim :=
                          | EStop p => p :: st
                          | ECont p => filter (fun q => negb (Nat.eqb q p)) st
                          | _ => st
-                         end) in
+                         end) (slow_rm m) (stale_at m) (lat0 m) (lats m) in
           match e with
           | ECancel _ | EStop _ | ECont _ => Some m'   (* take effect at the next steps *)
           | _ => match take m' (label_of_event e) with Some m'' => Some m'' | None => Some m' end
@@ -410,13 +464,13 @@ Fixpoint simulate (fuel : nat) (horizon : Z) (m : sim) : sim :=
 
 End WithConfig.
 
-Definition init_state (f : option fcontent) (last : Z) : state :=
+Definition init_state (f : option fcontent) (last : Z) (mt : Z) : state :=
   State 0 (match f with Some _ => Some O | None => None end)
         (fun _ => match f with Some x => x | None => FEmpty end)
         (match f with Some _ => 1%nat | None => O end)
-        (fun _ => CIdle) (fun _ => O) [] (fun _ => HNone) last.
+        (fun _ => CIdle) (fun _ => O) [] (fun _ => HNone) last (fun _ => mt).
 
-Definition init : state := init_state None (-1).
+Definition init : state := init_state None (-1) 0.
 
 (** ** two lock files side by side (shared clock, shared processes) *)
 Inductive label2 := L1 (l : label) | L2 (l : label) | LBoth (l : label).
